@@ -124,7 +124,7 @@ func runFcCase(c fcCase) (res fcRes) {
 				writer = 3
 			}
 		case "C":
-			conn.closeOnce.Do(func() { close(conn.closed) })
+			conn.Close()
 		}
 		if writer == 1 {
 			writer = 3 // may have been woken up by this op
@@ -137,7 +137,7 @@ func runFcCase(c fcCase) (res fcRes) {
 		st.mu.Lock()
 		o.Buffered = st.buffered
 		st.mu.Unlock()
-		o.Token = len(conn.write)
+		o.Token = vTokenLen(conn)
 		o.Writer = writer
 		res.Steps = append(res.Steps, o)
 	}
@@ -177,7 +177,6 @@ type hbqObs struct {
 }
 type hbqRes struct {
 	Out     []hbqObs `json:"out"`
-	Waiting uint32   `json:"waiting"`
 	Note    string   `json:"note,omitempty"`
 }
 
@@ -218,7 +217,7 @@ func runHbqCase(c hbqCase) (res hbqRes) {
 	granted := 0
 	isClosed := func() bool {
 		select {
-		case <-h.closed:
+		case <-st.closed:
 			return true
 		default:
 			return false
@@ -314,7 +313,6 @@ func runHbqCase(c hbqCase) (res hbqRes) {
 		}
 		res.Out = append(res.Out, o)
 	}
-	res.Waiting = h.waiting
 	return
 }
 
@@ -411,7 +409,7 @@ func runWdCase(c wdCase) (res wdRes) {
 		}
 	}()
 	select {
-	case <-h.closed:
+	case <-st.closed:
 		res.ClosedAtMs = float64(time.Since(start).Microseconds()) / 1000
 	case <-time.After(time.Duration(c.Quarters)*q + q/2):
 		res.ClosedAtMs = -1
